@@ -1,5 +1,6 @@
 import Bec2Verif.Lemmas.EcMulAdd
 import Bec2Verif.Lemmas.EcAffine
+import Bec2Verif.Lemmas.EcTotal
 /-!
 # C17 — the arithmetic of python-ecdsa's points is the group law of the curve
 
@@ -49,6 +50,25 @@ theorem mulAdd_correct (hc : CurveOK p a b) (c : Curve) (hcp : c.p = p) (hca : c
     (hgenP : P.gen = true → 0 < P.order) (hgenQ : ∀ Q', Q = some Q' → Q'.gen = true → 0 < Q'.order)
     (k1 k2 : ℤ) {R : Pt} (h : mulAdd c P k1 Q k2 = some R) : PRep p a b (k1 • A + k2 • B) R :=
   mulAdd_rep hc c hcp hca P Q hP hQ hordA hordB hordQ hgenP hgenQ k1 k2 h
+
+/-- the modular inverse (extended Euclid with its step budget) never fails for a prime modulus and a value that is
+not a multiple of it -/
+theorem inverse_complete (m : ℕ) (hm : m.Prime) (v : ℤ) (hv : ¬ (m : ℤ) ∣ v) : ∃ zi, inverseMod v m = some zi :=
+  inverseMod_complete m hm v hv
+
+/-- `P * k` always returns a point (no exception from a failed inversion or from the generator's table running into
+infinity — the latter needs `2^j • A ≠ 0`, true for every generator of odd order) … -/
+theorem mul_total (hc : CurveOK p a b) (c : Curve) (hcp : c.p = p) (hca : c.a = a) (P : PJ) {A : G p a b}
+    (hP : PRep p a b A P.pt) (hgen : P.gen = true → ∀ j : ℕ, (2 ^ j : ℕ) • A ≠ 0) (k : ℤ) :
+    ∃ R, pjMul c P k = some R ∧ (((P.order ≠ 0 → P.order • A = 0) ∧ (P.gen = true → 0 < P.order)) → PRep p a b (k • A) R) := by
+  obtain ⟨R, hR⟩ := pjMul_some hc c hcp hca P hP hgen k
+  exact ⟨R, hR, fun h => pjMul_rep hc c hcp hca P hP h.1 h.2 k hR⟩
+
+/-- … and so does `mul_add` with a second operand that is not a generator object -/
+theorem mulAdd_total (hc : CurveOK p a b) (c : Curve) (hcp : c.p = p) (hca : c.a = a) (P Q : PJ) {A B : G p a b}
+    (hP : PRep p a b A P.pt) (hQ : PRep p a b B Q.pt) (hgen : P.gen = true → ∀ j : ℕ, (2 ^ j : ℕ) • A ≠ 0)
+    (hQg : Q.gen = false) (k1 k2 : ℤ) : ∃ R, mulAdd c P k1 (some Q) k2 = some R :=
+  mulAdd_some hc c hcp hca P Q hP hQ hgen hQg k1 k2
 
 /-- representation independence: two representations of the same element give representations of the same sum -/
 theorem add_representation_independent (hc : CurveOK p a b) (c : Curve) (hcp : c.p = p) (hca : c.a = a)
